@@ -325,6 +325,35 @@ fn eval_wrapped(
     }
 }
 
+/// Record the case a worker is about to evaluate, so that the driver can re-run it in a fresh
+/// process if this one dies on a signal (stack overflow / abort).
+fn write_inflight(prop: &str, stratum: &str, worker: usize, input: &Input) {
+    let dir = verif_dir().join("work");
+    let path = dir.join(format!("inflight-{prop}-{worker}.json"));
+    let body = match input {
+        Input::Tape(t) => format!(
+            "{{\"property\":\"{prop}\",\"stratum\":\"{stratum}\",\"tape\":\"{}\",\"message\":\"in flight when the process died\",\"signature\":\"crash\"}}",
+            hex(t)
+        ),
+        Input::Index(i) => format!(
+            "{{\"property\":\"{prop}\",\"stratum\":\"{stratum}\",\"index\":{i},\"message\":\"in flight when the process died\",\"signature\":\"crash\"}}"
+        ),
+    };
+    let _ = std::fs::write(path, body);
+}
+
+fn clear_inflight(prop: &str) {
+    let dir = verif_dir().join("work");
+    let _ = std::fs::create_dir_all(&dir);
+    if let Ok(rd) = std::fs::read_dir(&dir) {
+        for e in rd.flatten() {
+            if e.file_name().to_string_lossy().starts_with(&format!("inflight-{prop}-")) {
+                let _ = std::fs::remove_file(e.path());
+            }
+        }
+    }
+}
+
 fn write_replay(prop: &str, stratum: &str, input: &Input, f: &Failure) -> PathBuf {
     let dir = verif_dir().join("replays");
     let _ = std::fs::create_dir_all(&dir);
@@ -485,6 +514,7 @@ fn run_stratum(
                                         Err(_) => break,
                                     };
                                     let tape = tree.current();
+                                    write_inflight(prop.id(), &st.name, w, &Input::Tape(&tape));
                                     stats.evaluations += 1;
                                     if let Err(f) = eval_wrapped(
                                         prop,
@@ -548,6 +578,9 @@ fn run_stratum(
                             'outer: while start < total {
                                 let end = (start + block).min(total);
                                 for i in start..end {
+                                    if total <= 200_000 {
+                                        write_inflight(prop.id(), &st.name, w, &Input::Index(i));
+                                    }
                                     stats.evaluations += 1;
                                     if let Err(f) = eval_wrapped(
                                         prop,
@@ -599,6 +632,7 @@ pub fn run_property(prop: &dyn Property, tier: Tier, seed: u64) -> i32 {
     };
 
     prop.init(tier, seed);
+    clear_inflight(prop.id());
     if let Err(e) = prop.self_check() {
         eprintln!("generator self-check failed: {e}");
         return 2;
@@ -796,6 +830,7 @@ pub fn run_property(prop: &dyn Property, tier: Tier, seed: u64) -> i32 {
         total.tolerated_known,
         wall
     );
+    clear_inflight(prop.id());
     if !report.infra.is_empty() {
         for m in &report.infra {
             eprintln!("INFRA: {m}");
